@@ -30,12 +30,31 @@ def main():
         return h % 8 == 0
 
     out = []
+    # contracts bind to functions by qualified name AND parameter list: a function whose parameter list differs from the one its contract was written
+    # against makes every harness naming it undecided (the harness would call it wrongly and mistake its own TypeError for an outcome)
+    import os
+    try:
+        pinned = json.load(open(os.path.join(config.VERIF, "baseline_signatures.json")))
+    except Exception:
+        pinned = {}
+    current = rewrite.library_signatures(config.REPO)
     for hname in job["harnesses"]:
         h = HARNESSES[hname]
         rewrite.REWRITE_LOG.clear()
         t0 = time.time()
         rec = {"harness": hname, "config": job["ver"], "engine": h.engine, "expect": h.expect, "props": list(h.props),
                "functions": list(h.functions), "assumes": list(h.assumes), "notes": h.notes, "soft": h.soft}
+        drift = []
+        for f in h.functions:
+            if f in pinned and current.get(f) != pinned[f]:
+                cur = current.get(f)
+                if cur is not None and cur[:1] == ["<fields>"] and pinned[f][:1] == ["<fields>"] and cur[:len(pinned[f])] == pinned[f]:
+                    continue        # fields appended to a class: positional construction in the contracts is unaffected
+                drift.append("%s%s, contract written against %s" % (f, "(%s)" % ", ".join(cur) if cur is not None else " is gone", "(%s)" % ", ".join(pinned[f])))
+        if drift:
+            rec.update(paths=0, queries=0, obligations=[], smt2=[], undecided_reason="signature changed: " + "; ".join(drift), wall_s=0.0, rewrites=[])
+            out.append(rec)
+            continue
         try:
             res = core.explore(lambda ctx: h.fn(ctx, cfg), export=export, max_seconds=job.get("max_seconds", 900))
             rec.update(paths=res.paths, queries=res.queries, undecided_reason=res.undecided_reason,
